@@ -55,7 +55,7 @@ impl Property for C19 {
         ]
     }
     fn expected_probes(&self) -> Vec<&'static str> {
-        vec!["drain_always", "drain_sometimes", "drain_never", "toggle_checked", "ay_enabled", "many_toggles_in_frame", "multi_frame_call", "rate_low", "rate_high", "szx_load_between_frames", "ay_switched_by_host"]
+        vec!["drain_always", "drain_sometimes", "drain_never", "toggle_checked", "ay_enabled", "many_toggles_in_frame", "multi_frame_call", "rate_low", "rate_high", "szx_load_between_frames", "ay_switched_by_host", "sound_enabled_after_construction"]
     }
 
     fn gen(&self, rng: &mut Rng, tier: Tier, _idx: u64) -> Scenario {
@@ -70,6 +70,7 @@ impl Property for C19 {
         sc.set("ay_seed", if rng.bool() { (rng.next() >> 8) as i64 } else { 0 });
         sc.set("drain", *rng.pick(&[0i64, 0, 1, 2]));
         sc.set("drain_j", rng.range(2, 4));
+        sc.set("sound_late", rng.chance(1, 4) as i64);
         let snaps = rng.chance(1, 3);
         let ay_sets = rng.chance(1, 3);
         let f: i64 = if m128 { 70908 } else { 69888 };
@@ -102,10 +103,16 @@ impl Property for C19 {
         let ay = sc.get("ay") != 0;
         let drain = sc.get("drain").clamp(0, 2);
         let drain_j = sc.get("drain_j").clamp(2, 8) as usize;
-        let cfg = MCfg { m128, rate, volume, beeper, ay, ay_mode: (sc.get("ay_seed") % 3) as u8, ..Default::default() };
+        // sound generation enabled in the settings, or switched on through set_sound() after construction
+        let sound_late = sc.get("sound_late") != 0;
+        let cfg = MCfg { m128, rate, volume, beeper, ay, ay_mode: (sc.get("ay_seed") % 3) as u8, sound: !sound_late, ..Default::default() };
         let f = cfg.frame_len() as i64;
         let spf = rate / 50;
         let mut e = new_emu(&cfg);
+        if sound_late {
+            ctx.probe("sound_enabled_after_construction");
+            e.set_sound(true);
+        }
         let machine = if m128 { "128k" } else { "48k" };
         if rate < 27000 {
             ctx.probe("rate_low");
